@@ -1,9 +1,9 @@
-(* Format/XzSpecInProofs.v — towards C03_in (XZ): what the independent specification accepts, the
+(* Format/XzSpecInProofs.v — C03_in (XZ), part 1: what the independent specification accepts, the
    crate's parsers accept with the same result.  Proved here, for arbitrary byte strings:
-   multibyte integers (both parsers of the crate agree with the specification's decoder, and the
-   accepted encoding is the canonical one the crate's index CRC is computed over), stream header,
-   stream footer.  The block header / blocks / index / streams lockstep is NOT done (see
-   Properties/C03.v). *)
+   multibyte integers (both parsers of the crate agree with the specification's decoder), stream
+   header, stream footer.  Continued in XzSpecIn2Proofs.v (canonical multibyte integers, filter
+   flags, block header), XzSpecIn3Proofs.v (blocks, index, streams, the theorems) and
+   XzSpecIn4Proofs.v (closed executable instance, example files). *)
 From LzVerif Require Import Base.Bytes Format.Crc Format.CrcProofs Format.Vli Format.VliProofs
   Format.XzFormat Format.XzSpec Format.XzSplitProofs Format.XzHeaderProofs Format.BitflipProofs
   Format.XzSoundProofs Format.XzSpecProofs.
